@@ -9,7 +9,7 @@ HOOK_COMMITS = subprocess.run(
 # property -> (level, text, note, technique, design_ref)
 CHECKS = {
  "C01": ("exploration",
-         "Seeded search: thousands of generated generic-driver sessions, each under its own segmentation/latency plan and its own controller-decided interleaving of reader and operation goroutines; results compared with expectations built by construction and the device's receive log. Sampled, not exhaustive.",
+         "Seeded search: thousands of generated generic-driver sessions, each under its own segmentation/latency plan and its own controller-decided interleaving of reader and operation goroutines; results compared with expectations built by construction and the device's receive log. One base run in 6-12 is followed by its cut enumeration: one sub-run per read-boundary position of its stream (a window of positions in the quick tier, all in the thorough tier), plus close pairs of boundaries. Sampled, not exhaustive.",
          "Trusts the CLI device model, the SimTransport and the fake clock; generator restrictions listed in DESIGN.md 5/C01 (H).",
          "deterministic simulation: synctest bubble + seeded goroutine controller + SimTransport/CLI device model, oracle by construction", "5/C01"),
  "C05": ("fault_enumeration",
@@ -21,27 +21,27 @@ CHECKS = {
          "Trusts the device/transport models; 'promptly' is 4 read delays + latency + one poll quantum; the stale get-prompt finding of earlier rounds is repaired (fix 8cc3438).",
          "deterministic simulation with loss-fault enumeration (eof/readerr after byte k for every k, write error at every write), crash attribution per run", "5/C06"),
  "C07": ("exploration",
-         "Seeded search over 9 connection states at Close x 3 transport close behaviours x read delays (zero-grace .. graceful) x second Close x every same-instant order of reader/closer/helper/operation hook points x descheduling faults; hang detection is exact (no enabled goroutine, no timer), goroutine leaks are read from the bubble's stacks, panics kill the worker and are attributed; a free-running -race leg looks for unsynchronised access.",
+         "Seeded search over 9 connection states at Close x 3 transport close behaviours x read delays (zero-grace .. graceful) x second Close x every same-instant order of reader/closer/helper/operation hook points x descheduling faults; hang detection is exact (no enabled goroutine, no timer), goroutine leaks are read from the bubble's stacks, panics kill the worker and are attributed; legs F/NF replay discovery scenarios with one never-seen order of two hook points forced (second point held until the first is reached or a bound expires); a free-running -race leg looks for unsynchronised access.",
          "Trusts the controller's lock model (implLock, queue lock) and the SimTransport close behaviours; NETCONF close states are in the NETCONF leg; the race leg re-runs by seed (not schedule-exact).",
-         "deterministic simulation: seeded interleaving of hook points + sched-hold and close-behaviour faults; separate race-detector leg", "5/C07"),
+         "deterministic simulation: seeded interleaving of hook points + sched-hold and close-behaviour faults + forced pairwise orders of hook points; separate race-detector leg", "5/C07"),
  "C20": ("exploration",
          "Every step inside the real queue's methods is a yield point; a seeded controller explores producer/consumer interleavings; histories are checked for linearizability against a list model with porcupine, plus conservation, depth and deadlock-freedom; all sequential histories up to length 6/7 are enumerated; a -race stress leg runs the same two goroutines free.",
          "Trusts porcupine and the list model; one producer, one consumer as stated.",
          "deterministic simulation of a 2-goroutine queue workload + porcupine linearizability check; exhaustive short sequential histories; race-detector stress leg", "5/C20"),
  "C04": ("exploration",
-         "Every rooted tree shape with <= 5 levels is visited in turn (larger ones sampled) with random authenticated edges, start levels and operation sequences; the device's (mode, line) log per call is compared with the unique tree path's commands, the level each line ran at and the final mode. Segmentation, latency and goroutine interleaving are seeded per run.",
-         "Trusts the CLI device model; level prompts are mutually exclusive by construction; driver-side map iteration order is not seeded (histories do not depend on it on conforming code).",
+         "Every rooted tree shape with <= 5 levels is visited in turn (larger ones sampled) with random authenticated edges, start levels and operation sequences; the device's (mode, line) log per call is compared with the unique tree path's commands, the level each line ran at and the final mode. Segmentation, latency and goroutine interleaving are seeded per run; one tree in four has twin levels (same prompt, told apart by the remembered level), one run in six an earlier connection whose driver was built from the same level objects. One base run in 6-12 is followed by its cut enumeration: one sub-run per read-boundary position of its stream (a window of positions in the quick tier, all in the thorough tier), plus close pairs of boundaries.",
+         "Trusts the CLI device model; level prompts are mutually exclusive by construction except for the twin pair (never the start level); driver-side map iteration order is not seeded (histories do not depend on it on conforming code).",
          "deterministic simulation of network-driver sessions against a privilege-tree device model; tree shapes enumerated by run index", "5/C04"),
  "C10": ("exploration",
-         "Generated login dialogues (telnet and ssh flavours, rejections, error lines, silence) with a reference deciding the expected outcome; the login device's (state, line) log shows which credential arrived where and how often; clean dialogues are re-run with silence injected at a stride of byte offsets (timeout class, give-up time on the fake clock, transport closed).",
+         "Generated login dialogues (telnet and ssh flavours, rejections, error lines, silence) with a reference deciding the expected outcome; the login device's (state, line) log shows which credential arrived where and how often; clean dialogues are re-run with silence injected at a stride of byte offsets (timeout class, give-up time on the fake clock, transport closed). One base run in 6-12 is followed by its cut enumeration: one sub-run per read-boundary position of its stream (a window of positions in the quick tier, all in the thorough tier), plus close pairs of boundaries.",
          "Trusts the login device model and the reference ('each credential asked at most twice'); banner alphabet excludes prompt-like characters as the property requires.",
          "deterministic simulation of in-channel authentication against a login device model + stall-point injection", "5/C10"),
  "C11": ("exploration",
-         "A monitor: debug-level logger and channel-log sink attached to generated login dialogues (incl. retries, failures, timeouts) and privilege escalations (device asks / grants / refuses); every logged string and channel-log byte run is searched for the run's secrets (random, with format verbs and regexp metacharacters).",
+         "A monitor: debug-level logger and channel-log sink attached to generated login dialogues (incl. retries, failures, timeouts) and privilege escalations (device asks / grants / refuses); every logged string and channel-log byte run is searched for the run's secrets (random, with format verbs and regexp metacharacters). Leg S: standard-ssh connections (password / key with passphrase, key files good, missing, garbage or a directory) with the same logger.",
          "Assumes the device never echoes a secret (property's assumption); platform on-open redaction is exercised in C17's runs.",
          "deterministic simulation (C10/C12 dialogue generators) with a log-capture oracle", "5/C11"),
  "C12": ("exploration",
-         "Generated interactive dialogues, plain sends and escalations against a device that pauses and segments its answers; the transport's write log records how many device bytes had been delivered at each write, so typing ahead of the previous response, returning before the echo, or typing the secret anywhere but at the password prompt is visible.",
+         "Generated interactive dialogues, plain sends and escalations against a device that pauses and segments its answers; the transport's write log records how many device bytes had been delivered at each write, so typing ahead of the previous response, returning before the echo, or typing the secret anywhere but at the password prompt is visible. One dialogue run in five is preceded by a connection to another device on which the caller uses the same event objects. One base run in 6-12 is followed by its cut enumeration: one sub-run per read-boundary position of its stream (a window of positions in the quick tier, all in the thorough tier), plus close pairs of boundaries.",
          "'Delivered' = returned by the transport's Read; completion patterns are prompts (as in the library's own use).",
          "deterministic simulation with device-paced delays; causal write/read log oracle", "5/C12"),
  "C13": ("exploration",
@@ -49,11 +49,11 @@ CHECKS = {
          "The marking predicate has no schedule dimension; simulation contributes the device-side observation.",
          "deterministic simulation (device line log) + expectation by construction", "5/C13"),
  "C18": ("exploration",
-         "Generated callback lists over a shared vocabulary against scripted dialogues; a reference trigger model written from the property statement is stepped on exactly the chunk sequence the transport delivered and predicts the (callback, argument) sequence, result and error class.",
+         "Generated callback lists over a shared vocabulary against scripted dialogues; a reference trigger model written from the property statement is stepped on exactly the chunk sequence the transport delivered and predicts the (callback, argument) sequence, result and error class. A held-caller family deschedules the caller past the deadline (timeout error demanded, no panic). One base run in 6-12 is followed by its cut enumeration: one sub-run per read-boundary position of its stream (a window of positions in the quick tier, all in the thorough tier), plus close pairs of boundaries.",
          "Callback lists exclude shapes whose outcome depends on poll timing the property does not define (see assumptions in evidence).",
          "deterministic simulation + executable reference trigger model over the delivered chunk history", "5/C18"),
  "C02": ("exploration",
-         "Generated reply payloads in 1.0 framing or random legal RFC 6242 chunkings, cut into reads and interleaved arbitrarily, compared with expectations by construction; a fault sub-batch frames replies with named framing faults; per run dozens of raw frames (well-formed, faulty, truncated, unterminated, literals) go straight to the public decoder under recover(). Listed malformed classes must be marked failed; never a panic; results never contain bytes that were not sent.",
+         "Generated reply payloads in 1.0 framing or random legal RFC 6242 chunkings, cut into reads and interleaved arbitrarily, compared with expectations by construction; a fault sub-batch frames replies with named framing faults; per run dozens of raw frames (well-formed, faulty, truncated, unterminated, literals) go straight to the public decoder under recover(). One base run in 6-12 is followed by its cut enumeration: one sub-run per read-boundary position of its stream (a window of positions in the quick tier, all in the thorough tier), plus close pairs of boundaries. Listed malformed classes must be marked failed; never a panic; results never contain bytes that were not sent.",
          "Trusts the server model's framer; one known finding ('##' inside a payload vs. the read loop's regexp delimiter) is listed in known-findings.json; the raw-frame leg has no schedule dimension.",
          "deterministic simulation of NETCONF sessions + malformed-frame fault injection + direct decoder calls; oracle by construction", "5/C02"),
  "C03": ("exploration",
